@@ -49,6 +49,15 @@ CHECKS["C19"] = dict(engine="clisim", level="exploration", design_ref="DESIGN.md
    text="Generated directory trees and invocation shapes from the README's grammar are run through the real command (worker pool under a seeded scheduler, two schedules per multi-task scenario, io.ReadAll/io.Copy buffer sizes chosen by the plan); afterwards every destination must hold exactly the library's bytes for its type (original bytes when the library rejects the input, verbatim copy in sync mode, minified concatenation with the documented separator for bundles), stdout likewise, exit status non-zero iff a selected file failed, no other path changed, no leftover .bak, refused invocations write nothing. One run in three additionally injects an errno into an operation the command handles; then only 'no other file modified' and 'inputs not harmed' are judged. Sampling of trees, shapes and schedules.",
    note="Trusts: the model of destinations (written from cmd/minify/README.md; shapes it does not pin are not judged), library calls of the same tree for contents, the os/io facades covering every FS access (AST scan, exit 2 otherwise), kernel FS semantics of the scratch tmpfs.")
 
+CHECKS["C10"] = dict(engine="libsim", level="exploration", design_ref="DESIGN.md §3 C10",
+   technique="deterministic simulation with fault injection on the stream and collaborator seams: seeded stream faults (truncate, drop/duplicate/swap chunk, flip byte, reader/writer failure) applied to corpus documents through every entry point, wrappers under the seeded scheduler; crash/hang monitors; tape replay and shrinking",
+   text="PARTIAL CLAIM: only the part of C10 that stream faults and failing collaborators reach. Documents from the tree's tests, corpora and benchmarks are delivered cut short, with chunks lost, duplicated (up to 64 times) or swapped, bytes flipped, with a reader or writer that starts failing, optionally embedded in an HTML host, through Minify/Bytes/String/Reader/Writer and direct package calls with default and extreme options (all Keep* flags, precisions incl. MaxInt/MinInt). Judged: no panic, the call returns (deadlock detection, step budget, wall-clock watchdog confirmed by solitary replay), output volume bounded, Bytes/String return the caller's data unchanged on error. Not claimed: arbitrary byte strings (fuzzing), memory growth, wall-time proportionality.",
+   note="Trusts: Go runtime, testing/synctest, the doubles. The hang watchdog is wall-clock (60 s for cases that take milliseconds) and only reported after a solitary replay hangs again; otherwise exit 2. One known finding (Bytes returns modified data on error) is listed in known_findings.json.")
+CHECKS["C11"] = dict(engine="libsim", level="exploration", design_ref="DESIGN.md §3 C11",
+   technique="deterministic simulation of the host/embedded-minifier interaction through the registry seam: recording, identity, absent and failing stub sub-minifiers registered through the public API (fault injection at the collaborator), recorded call history checked against the host construction; tape replay and shrinking",
+   text="PARTIAL CLAIM: the interaction between a host minifier and the registry (who is called, with what, what happens when the callee is absent or fails), not the product space of host documents. Template-built HTML/SVG/CSS hosts with known payload spans (script/style/iframe/svg/math, style= and on*=, data: URIs, SVG style text/CDATA/attribute, HTML>SVG>CSS nesting); each embedded media type is independently real, absent, recording, identity or failing-on-nth-call. The recorded dispatch history must equal the prediction (type from the type attribute or documented default, exact payload, inline=1 for attributes, document order, nothing else); stub output substituted in order; real minifiers commute with standalone calls; absent => pass-through; failing => outer call returns that error; real syntax error => located inside the construct.",
+   note="Trusts: the template family and its model of documented defaults; payloads avoid characters the host must re-escape (host escaping belongs to C03). One known finding (failure inside a data: URI is swallowed) is listed in known_findings.json.")
+
 PENDING = {}
 
 def main():
@@ -91,5 +100,4 @@ def main():
     print("wrote MANIFEST.json:", len(checks), "checks,", len(na), "not applicable")
 
 if __name__ == "__main__":
-    PENDING.update({p: "check not built yet in this round (planned, see DESIGN.md §3); not claimed until it exists" for p in ["C10","C11"]})
     main()
